@@ -11,3 +11,4 @@ import OlVerif.Props.C08
 #print axioms OlVerif.C08.reject_return_module
 #print axioms OlVerif.C08.reject_continue_in_def
 #print axioms OlVerif.C08.reject_return_in_class
+#print axioms OlVerif.C08.reject_starred_comprehension_target
